@@ -19,6 +19,7 @@ the obligation replays against the real code.
 What is NOT modelled: the data written, other threads, callee bodies (each callee is a separate
 obligation or an event). This is the "protocol order" level of DESIGN.md.
 """
+import os
 import re
 
 import z3
@@ -29,7 +30,8 @@ def src_text(span, cache={}):
     if not span:
         return ""
     f, l1, c1, l2, c2 = span
-    path = "/repo/" + f
+    import paths
+    path = os.path.join(paths.REPO, f)
     if path not in cache:
         try:
             cache[path] = open(path).read().splitlines()
